@@ -141,7 +141,11 @@ func VH_distinct_Big() {
 	c.Add(size - 1)
 	vCover("bigpass")
 	vAssert(c.Len() < size, "after the passes the buffer is below its size")
-	vAssert(c.Len() > 0, "a pass that keeps almost every element leaves the buffer non-empty")
+	if c.Len() == 0 {
+		// only the three solver-chosen coins can evict more than one element per word
+		vAssert(size <= 3 && c.Count() == 0, "a pass that keeps almost every element leaves the buffer non-empty")
+		return
+	}
 	k, ok := vLog2Ratio(c.Count(), c.Len())
 	vAssert(ok, "Count is Len times a power of two")
 	vAssert(k >= 1, "a pass halves the probability")
